@@ -69,6 +69,19 @@ impl<'tcx> Hx<'tcx> {
         }
     }
 
+    fn ga(&self, id: hir::HirId, f: &mut Vec<(&'static str, J)>) {
+        if let Some(args) = self.tr.node_args_opt(id) {
+            let v: Vec<J> = args
+                .iter()
+                .filter(|a| a.as_region().is_none())
+                .map(|a| s(crate::generic_arg_str(a)))
+                .collect();
+            if !v.is_empty() {
+                f.push(("ga", J::Arr(v)));
+            }
+        }
+    }
+
     fn qres(&self, q: &hir::QPath<'_>, id: hir::HirId) -> J {
         self.res(self.tr.qpath_res(q, id))
     }
@@ -223,6 +236,7 @@ impl<'tcx> Hx<'tcx> {
                 // resolved callee when the callee is a path
                 if let Path(q) = &fun.kind {
                     f.push(("callee", self.qres(q, fun.hir_id)));
+                    self.ga(fun.hir_id, &mut f);
                 } else {
                     f.push(("f", self.expr(fun)));
                 }
@@ -234,6 +248,7 @@ impl<'tcx> Hx<'tcx> {
                 if let Some(d) = self.tr.type_dependent_def_id(e.hir_id) {
                     f.push(("callee", s(key(self.tcx, d))));
                 }
+                self.ga(e.hir_id, &mut f);
                 f.push(("recv_ty", s(ty_str(self.tr.expr_ty_adjusted(recv)))));
                 f.push(("recv", self.expr(recv)));
                 f.push(("args", J::Arr(args.iter().map(|x| self.expr(x)).collect())));
@@ -338,6 +353,7 @@ impl<'tcx> Hx<'tcx> {
             Path(q) => {
                 f.push(("k", s("path")));
                 f.push(("res", self.qres(q, e.hir_id)));
+                self.ga(e.hir_id, &mut f);
             }
             AddrOf(_, m, x) => {
                 f.push(("k", s("ref")));
